@@ -57,9 +57,98 @@ def is_elements(seq: Seq):
     return isinstance(seq, Seq) and seq.path.split('[')[0].endswith('.elements')
 
 
+def normalise_deciders(model):
+    """A mode decision written as a function - `self.F = self.M()` with M a pure decision that RETURNS True / False / the
+    present value of F - is rewritten to the shape the rules are stated for: M assigns F itself and the call stands alone.
+    Sound because it is done only when every call of M in the class is the right-hand side of an assignment to the same
+    field F, M writes nothing, every path of M ends in a `return <bool constant | self.F>`.  Idempotent."""
+    ci = model.classes.get('Solver')
+    if ci is None or getattr(ci, '_deciders_normalised', False):
+        return
+    ci._deciders_normalised = True
+
+    def ret_ok(v):
+        return (isinstance(v, ast.Constant) and isinstance(v.value, bool)) or \
+            (isinstance(v, ast.Attribute) and isinstance(v.value, ast.Name) and v.value.id == 'self')
+
+    def pure(stmts):
+        """(ok, always_returns)"""
+        for i, s_ in enumerate(stmts):
+            if isinstance(s_, ast.If):
+                a, ra = pure(s_.body)
+                b, rb = pure(s_.orelse) if s_.orelse else (True, False)
+                if not (a and b):
+                    return False, False
+                if ra and rb:
+                    return True, True
+            elif isinstance(s_, ast.Return):
+                return (s_.value is not None and ret_ok(s_.value)), True
+            elif isinstance(s_, ast.Pass) or (isinstance(s_, ast.Expr) and isinstance(s_.value, ast.Constant)):
+                continue
+            elif isinstance(s_, ast.Assign) and len(s_.targets) == 1 and isinstance(s_.targets[0], ast.Name):
+                continue
+            else:
+                return False, False
+        return True, False
+    for name, mem in list(ci.members.items()):
+        if name in ('run', '__init__') or mem.kind != 'method' and getattr(mem, 'kind', 'method') in ('property', 'setter'):
+            continue
+        ok, always = pure(mem.node.body)
+        if not (ok and always):
+            continue
+        consts = [r for r in ast.walk(mem.node) if isinstance(r, ast.Return) and isinstance(r.value, ast.Constant)]
+        if not consts:
+            continue
+        # call sites
+        sites, other = [], 0
+        for m2 in ci.all_members():
+            for x in ast.walk(m2.node):
+                if isinstance(x, ast.Call) and isinstance(x.func, ast.Attribute) and x.func.attr == name \
+                        and isinstance(x.func.value, ast.Name) and x.func.value.id == 'self':
+                    other += 1
+            for x in ast.walk(m2.node):
+                if isinstance(x, ast.Assign) and len(x.targets) == 1 and isinstance(x.targets[0], ast.Attribute) \
+                        and isinstance(x.targets[0].value, ast.Name) and x.targets[0].value.id == 'self' \
+                        and isinstance(x.value, ast.Call) and isinstance(x.value.func, ast.Attribute) and x.value.func.attr == name \
+                        and isinstance(x.value.func.value, ast.Name) and x.value.func.value.id == 'self' and not x.value.args and not x.value.keywords:
+                    sites.append((m2, x))
+        fields = {x.targets[0].attr for _, x in sites}
+        if not sites or other != len(sites) or len(fields) != 1:
+            continue
+        F = fields.pop()
+        rets_attr = {r.value.attr for r in ast.walk(mem.node) if isinstance(r, ast.Return) and isinstance(r.value, ast.Attribute)}
+        if rets_attr - {F}:
+            continue
+
+        class RewriteReturns(ast.NodeTransformer):
+            def visit_Return(self, r):
+                if isinstance(r.value, ast.Attribute):
+                    return ast.copy_location(ast.Return(value=None), r)
+                st = ast.copy_location(ast.Assign(targets=[ast.Attribute(value=ast.Name(id='self', ctx=ast.Load()), attr=F, ctx=ast.Store())],
+                                                  value=r.value), r)
+                ast.fix_missing_locations(st)
+                return [st, ast.copy_location(ast.Return(value=None), r)]
+
+            def visit_FunctionDef(self, fnode):
+                if fnode is mem.node:
+                    self.generic_visit(fnode)
+                return fnode
+        RewriteReturns().visit(mem.node)
+
+        class RewriteSites(ast.NodeTransformer):
+            def visit_Assign(self, x):
+                if any(x is sx_ for _, sx_ in sites):
+                    return ast.copy_location(ast.Expr(value=x.value), x)
+                return x
+        for m2 in {id(m_): m_ for m_, _ in sites}.values():
+            RewriteSites().visit(m2.node)
+            ast.fix_missing_locations(m2.node)
+
+
 class SolverIR:
     def __init__(self, model, opaque_methods=None):
         self.model = model
+        normalise_deciders(model)
         self.sx = SX(model)
         self.ctx = self.sx.ctx
         self.sx.loop_handler = self.loop
@@ -74,6 +163,7 @@ class SolverIR:
     def state_deciders(model):
         """helper methods of Solver that assign boolean constants to solver fields (mode decisions such as the
         lock of a self-locking powertrain): kept as calls in the run IR and analysed on their own (C13)"""
+        normalise_deciders(model)
         out = set()
         ci = model.classes.get('Solver')
         if not ci:
@@ -237,6 +327,19 @@ class SolverIR:
             return None
         if is_elements(v) and '[' not in v.path:
             return {'first': Rat.const(0), 'count': self.n, 'dir': one, 'base': v}
+        if is_elements(v):
+            # a local bound earlier to a slice of the element tuple (`first, *rest = elements`, `driven = elements[1:]`)
+            import re
+            mm = re.match(r'^([^\[]*)\[(-?\d*):(-?\d*)\]$', v.path)
+            if mm:
+                def bound(txt, default):
+                    if txt == '':
+                        return default
+                    c = int(txt)
+                    return Rat.const(c) if c >= 0 else self.n + Rat.const(c)
+                lo = bound(mm.group(2), Rat.const(0))
+                hi = bound(mm.group(3), self.n)
+                return {'first': lo, 'count': hi - lo, 'dir': one, 'base': Seq(mm.group(1), v.elem)}
         return None
 
     def _iteration(self, it, target, st, frame):
